@@ -13,7 +13,7 @@ from hypothesis import strategies as st
 from .. import core, rsmodel, session, strategies as S
 from ..core import Part, Violation, guard
 
-RULE = ("Hypothesis-generated count-normalised rulesets (plus a separately counted class whose base-structure list is "
+RULE = ("Hypothesis-generated count-normalised rulesets, with and without --skip_brute / --all_lower (plus a separately counted class whose base-structure list is "
         "sub-normalised, as edit_rules or skip_brute leave it). The uniform draws seen by the sampler are scripted: for the base "
         "structure and for every position the draw is swept over 0.0, every breakpoint (exact cumulative sum) +-{0, 1 ulp, "
         "1e-13}, every interval mid-point and 1-2^-53, and the selected structure / group must be the interval containing the "
@@ -88,7 +88,7 @@ def norm_rulesets(draw):
         drop = draw(st.integers(0, len(base) - 1))
         if base[drop][0] != 'M':
             del base[drop]
-    return {'model': m, 'subnormalised': sub, 'skip_brute': use_m and draw(st.booleans())}
+    return {'model': m, 'subnormalised': sub, 'skip_brute': use_m and draw(st.booleans()), 'skip_case': draw(st.integers(0, 3)) == 0}
 
 
 def sweep(cum):
@@ -148,9 +148,9 @@ def prop_sampler(case, rec):
     m = case['model']
     rdir = os.path.join(_dir(), 'R')
     rsmodel.write_ruleset(rdir, m)
-    sb = case['skip_brute']
-    g = guard(case, guesser.load, rdir, skip_brute=sb)
-    vs, base = rsmodel.effective(m, sb, False)
+    sb, sc = case['skip_brute'], case.get('skip_case', False)
+    g = guard(case, guesser.load, rdir, skip_brute=sb, skip_case=sc)
+    vs, base = rsmodel.effective(m, sb, sc)
     if not base:
         rec.skip('no_base')
         return
@@ -238,7 +238,7 @@ def prop_sampler(case, rec):
     finally:
         pgm.random = saved
     multi = len(base) >= 2 and any(len(v) >= 2 for g_ in vs.values() for _, v in g_)
-    cls = ['subnormalised_base' if case['subnormalised'] else 'normalised_base'] + (['skip_brute'] if sb else []) + \
+    cls = ['subnormalised_base' if case['subnormalised'] else 'normalised_base'] + (['skip_brute'] if sb else []) + (['skip_case'] if sc else []) + \
           (['markov_in_base'] if any(t[0][0] == 'M' for t, _, _ in base) else [])
     rec.case(case, multi, cls, n=n_eval)
 
@@ -249,8 +249,8 @@ def run_sampler(rec, seed, shard, nshards, tier):
 
 
 # ---------------------------------------------------------------- end to end
-def language(m, sb):
-    vs, base = rsmodel.effective(m, sb, False)
+def language(m, sb, sc=False):
+    vs, base = rsmodel.effective(m, sb, sc)
     lang = set()
     for bi, pt in rsmodel.preterminals(vs, base):
         if pt[0][0] == 'M':
@@ -292,16 +292,16 @@ def prop_e2e(case, rec):
     from lib_guesser.honeyword_session import HoneywordSession
     import contextlib
     import io
-    m, n, sb = case['model'], case['n'], case['skip_brute']
+    m, n, sb, sc = case['model'], case['n'], case['skip_brute'], case.get('skip_case', False)
     rdir = os.path.join(_dir(), 'E')
     rsmodel.write_ruleset(rdir, m)
-    lang = language(m, sb)
+    lang = language(m, sb, sc)
     if not lang:
         rec.skip('empty_non_markov_language')
         return
     outs = {}
     for mode in ('random_walk', 'honeywords', 'random_walk2'):
-        g = guard(case, guesser.load, rdir, skip_brute=sb)
+        g = guard(case, guesser.load, rdir, skip_brute=sb, skip_case=sc)
         buf = _Budget(n + 200)
 
         def go():
@@ -322,8 +322,8 @@ def prop_e2e(case, rec):
             raise Violation('not_in_language', f'{mode}: words outside the non-Markov language: {bad[:5]}', case)
     if outs['random_walk'] != outs['random_walk2']:
         raise Violation('random_walk_not_reproducible', f'two random_walk runs differ: {outs["random_walk"][:5]} vs {outs["random_walk2"][:5]}', case)
-    rec.case({'n': n, 'words': outs['random_walk'][:5], 'skip_brute': sb}, len(lang) >= 4,
-             ['e2e', 'subnormalised_base' if case['subnormalised'] else 'normalised_base'], key=[m, n, sb])
+    rec.case({'n': n, 'words': outs['random_walk'][:5], 'skip_brute': sb, 'skip_case': sc}, len(lang) >= 4,
+             ['e2e', 'subnormalised_base' if case['subnormalised'] else 'normalised_base'] + (['e2e_skip_case'] if sc else []), key=[m, n, sb, sc])
 
 
 @st.composite
@@ -354,9 +354,10 @@ def prop_cli(case, rec):
     global _CLI
     if _CLI is None or not os.path.isdir(_CLI):
         _CLI = session.copy_cli(session.make_root('c16cli'))
-    m, n, sb = case['model'], case['n'], case['skip_brute']
+    m, n, sb, sc = case['model'], case['n'], case['skip_brute'], case.get('skip_case', False)
     rsmodel.write_ruleset(os.path.join(_CLI, 'Rules', 'T'), m)
-    lang = language(m, sb)
+    lang = language(m, sb, sc)
+    flags = (['--skip_brute'] if sb else []) + (['--all_lower'] if sc else [])
     if not lang:
         rec.skip('empty_non_markov_language')
         return
@@ -365,7 +366,7 @@ def prop_cli(case, rec):
     for hs in (1, 77):
       try:
         p = subprocess.run([sys.executable, os.path.join(_CLI, 'pcfg_guesser.py'), '-r', 'T', '-m', 'random_walk', '-n', str(n)] +
-                           (['--skip_brute'] if sb else []), stdin=subprocess.DEVNULL, capture_output=True,
+                           flags, stdin=subprocess.DEVNULL, capture_output=True,
                            env=dict(env, PYTHONHASHSEED=str(hs)), cwd=_CLI, timeout=120)
       except subprocess.TimeoutExpired:
         rec.skip('cli_timeout_inconclusive')
@@ -374,7 +375,7 @@ def prop_cli(case, rec):
         outs.append(p.stdout.decode('utf-8', 'replace').split('\n')[:-1])
         if p.returncode != 0:
             raise Violation('crash:cli', p.stderr.decode('utf-8', 'replace')[-600:], case)
-    rec.case({'n': n, 'cli_words': outs[0][:5]}, len(lang) >= 4, ['cli_random_walk'], key=[m, n, sb, 'cli'])
+    rec.case({'n': n, 'cli_words': outs[0][:5], 'flags': flags}, len(lang) >= 4, ['cli_random_walk'] + (['cli_all_lower'] if sc else []), key=[m, n, sb, sc, 'cli'])
     if len(outs[0]) != n:
         raise Violation('limit', f'CLI random_walk -n {n}: {len(outs[0])} lines on stdout', case)
     if outs[0] != outs[1]:
@@ -394,7 +395,7 @@ def prop_cli(case, rec):
     try:
         if hist in ('other_ruleset', 'all_lower'):
             rsmodel.write_ruleset(os.path.join(_CLI, 'Rules', 'U'), OTHER_RULESET)
-            args = ['-r', 'U', '-n', '2'] if hist == 'other_ruleset' else ['-r', 'T', '-n', '1', '--all_lower'] + (['--skip_brute'] if sb else [])
+            args = ['-r', 'U', '-n', '2'] if hist == 'other_ruleset' else ['-r', 'T', '-n', '1'] + ([] if sc else ['--all_lower']) + (['--skip_brute'] if sb else [])
             p0 = subprocess.run([sys.executable, os.path.join(_CLI, 'pcfg_guesser.py')] + args, stdin=subprocess.DEVNULL,
                                 capture_output=True, env=dict(env, PYTHONHASHSEED='1'), cwd=_CLI, timeout=120)
             if not os.path.exists(sav):
@@ -402,11 +403,11 @@ def prop_cli(case, rec):
                 return
         for mode in ('random_walk', 'honeywords'):
             p = subprocess.run([sys.executable, os.path.join(_CLI, 'pcfg_guesser.py'), '-r', 'T', '-m', mode, '-n', str(n), '--load'] +
-                               (['--skip_brute'] if sb else []), stdin=subprocess.DEVNULL, capture_output=True,
+                               flags, stdin=subprocess.DEVNULL, capture_output=True,
                                env=dict(env, PYTHONHASHSEED='1'), cwd=_CLI, timeout=120)
             got = p.stdout.decode('utf-8', 'replace').split('\n')[:-1]
             rec.case({'n': n, 'history': hist, 'mode': mode, 'cli_words': got[:5]}, len(lang) >= 4, ['cli_load_after_' + hist],
-                     key=[m, n, sb, 'cli', hist, mode])
+                     key=[m, n, sb, sc, 'cli', hist, mode])
             if p.returncode != 0:
                 raise Violation('crash:cli', p.stderr.decode('utf-8', 'replace')[-600:], case)
             if len(got) != n:
